@@ -28,7 +28,10 @@ struct RunResult {
   Verdict v; bool nontrivial = false; std::map<std::string, uint64_t> counters;
   // summary used by the metamorphic properties (C20, C09)
   std::vector<std::string> outcome_summary; std::vector<std::string> server_stream;
+  std::set<int> enomem_reqs;   // C14: requests that completed with ARES_ENOMEM
 };
+
+inline Sim *&cur_sim() { static Sim *p = nullptr; return p; }
 
 struct Scenario {
   Sim s; std::vector<Action> actions; std::string prop;
@@ -130,7 +133,7 @@ struct Scenario {
         if (d > 0 && d < ((int64_t)1 << 55) && S.w.now_us < ((int64_t)1 << 60)) S.w.now_us += d;
       } else if (a.op == "cancel") S.do_cancel();
       else if (a.op == "inject" && a.a.size() >= 2) inject(a.a[0], atoi(a.a[1].c_str()));
-      else if (a.op == "reinit") { if (S.ch) { ares_reinit(S.ch); S.apply_servers(S.server_specs); S.reconfig_times.push_back(S.w.now_us); S.reconfig_ticks.push_back(++S.tick); } }
+      else if (a.op == "reinit") { if (S.ch) { { Sim::LibCall lc(S); ares_reinit(S.ch); } S.apply_servers(S.server_specs); S.reconfig_times.push_back(S.w.now_us); S.reconfig_ticks.push_back(++S.tick); } }
       else if (a.op == "setservers" && !a.a.empty()) {
         // "change" = the set of servers differs (re-ordering the same servers leaves cached answers as valid as before)
         auto norm = [](const std::vector<std::string> &v) { std::set<std::string> o; for (auto &x : v) { Addr ad; if (Addr::parse(x, ad)) o.insert(ad.str()); } return o; };
@@ -154,6 +157,23 @@ struct Scenario {
       if (q.pending_at_destroy && q.calls == 1 && q.status != ARES_EDESTRUCTION) fail(r, "C01.destroy-status", "request " + std::to_string(q.id) + " pending at ares_destroy completed with " + ares_strerror(q.status));
     }
     r.counters["c01.cb_starts_request"] += cbnew; r.counters["c01.cb_cancels"] += cbcancel;
+  }
+
+  // ---- C14: after the one refused allocation the allocator is healthy again: nothing started afterwards may report out-of-memory, and the probe request
+  //      issued after the scenario must complete (exactly once, like every other request: monitor_c01)
+  std::set<int> baseline_enomem;   // (the library also uses ARES_ENOMEM for "does not fit": requests that report it with a healthy allocator are not judged)
+  void monitor_c14(RunResult &r) {
+    Sim &S = s;
+    for (auto &kv : S.reqs) if (kv.second.calls >= 1 && kv.second.status == ARES_ENOMEM) r.enomem_reqs.insert(kv.first);
+    if (!S.online.ok && S.online.sig.rfind("C01.", 0) != 0) { r.v = Verdict(); monitor_c01(r); }   // other properties' online oracles assume a healthy allocator
+    if (!S.fault_tick) return;
+    r.counters["c14.idle_spins_after_fault"] += S.idle_spins;
+    r.counters["c14.faults_fired"]++; if (S.fault_pending) r.counters["c14.faults_with_requests_in_flight"]++; if (S.fault_in_cancel) r.counters["c14.faults_inside_cancel"]++;
+    for (auto &kv : S.reqs) { const Req &q = kv.second; if (!q.started || !q.accepted || q.calls != 1) continue;
+      if (S.fault_closed_tick && q.tick_start > S.fault_closed_tick && q.status == ARES_ENOMEM && !baseline_enomem.count(q.id)) fail(r, "C14.out-of-memory-reported-without-a-failing-allocation", "request " + std::to_string(q.id) + " (" + q.kind + " " + q.name + ") was started after the call in which the single allocation was refused had returned, and still completed with ARES_ENOMEM");
+      if (q.id == 9990) r.counters[std::string("c14.probe_status.") + ares_strerror(q.status)]++; }
+    { auto it = S.reqs.find(9990); if (it != S.reqs.end() && it->second.pending_at_destroy && !S.astronomic) fail(r, "C14.channel-not-usable-after-the-fault", std::string("a fresh request issued after the refused allocation was still pending when the channel was destroyed (") + (S.stuck ? "no deadline and nothing deliverable" : "step budget exhausted") + ")"); }
+    if (S.fault_pending) r.nontrivial = true;
   }
 
   void monitor_c10(RunResult &r) {
@@ -556,6 +576,7 @@ struct Scenario {
     RunResult r; Sim &S = s;
     if (!S.online.ok) r.v = S.online;
     monitor_c01(r);
+    if (prop == "C14") { monitor_c14(r); return r; }
     monitor_c10(r);
     if (prop == "C06" || prop == "C07" || prop == "C01") monitor_c06(r);
     monitor_c05(r);
@@ -572,6 +593,7 @@ struct Scenario {
     bool timeouts = false; for (auto &kv : S.reqs) if (kv.second.timeouts > 0 || kv.second.status == ARES_ETIMEOUT) timeouts = true;
     if (prop == "C01" && nreq >= 2 && (r.counters["c01.cb_starts_request"] || r.counters["c01.cb_cancels"] || has_faults || timeouts || search2)) r.nontrivial = true;
     if (prop == "C07" && S.c07_checks > 0) { r.nontrivial = S.c07_multi > 0; r.counters["c07.counterfactual_checks"] += S.c07_checks; r.counters["c07.checks_with_2plus_deadlines"] += S.c07_multi; }
+    r.counters["sim.idle_spins"] += S.idle_spins;
     r.counters["sim.requests"] += nreq; r.counters["sim.transmissions"] += S.w.txs.size(); r.counters["sim.sockets"] += S.w.socks.size(); r.counters["sim.steps"] += S.steps + S.drain_steps;
     if (has_faults) r.counters["sim.with_socket_faults"]++; if (has_cancel) r.counters["sim.with_cancel"]++; if (has_reconfig) r.counters["sim.with_reconfig"]++; if (search2) r.counters["sim.search_2plus_candidates"]++; if (timeouts) r.counters["sim.with_timeouts"]++;
     for (auto &t : S.w.txs) if (t.tcp) { r.counters["sim.tcp_transmissions"]++; break; }
@@ -619,14 +641,26 @@ struct Scenario {
     for (const char *e : {"LOCALDOMAIN", "RES_OPTIONS", "HOSTALIASES", "CARES_HOSTS"}) unsetenv(e);
     W() = &s.w;
     long live0 = vf::ledger().live;
-    if (!s.init_channel()) { RunResult r; r.counters["sim.init_failed"]++; W() = nullptr; return r; }
+    s.c14 = prop == "C14"; if (s.c14) { cur_sim() = &s; vf::ledger().on_fire = [] { if (cur_sim()) cur_sim()->on_alloc_fault(); }; }
+    if (!s.init_channel()) { RunResult r; r.counters["sim.init_failed"]++; W() = nullptr; cur_sim() = nullptr;
+      if (s.c14 && vf::ledger().live != live0) fail(r, "C14.leak", std::to_string(vf::ledger().live - live0) + " library allocations still live after a failed ares_init_options");
+      if (s.c14 && s.fault_tick) { r.counters["c14.faults_fired"]++; r.counters["c14.faults_during_init"]++; }
+      return r; }
     if (s.opt.c07) s.check_timeout_api();
     run_actions();
     s.drain();
+    if (s.c14 && !s.destroyed && s.ch) {
+      // the channel must still be usable: a fresh request on it completes (the allocator is healthy from here on)
+      bool was_armed = vf::ledger().armed && vf::ledger().fail_at; uint64_t fa = vf::ledger().fail_at, cnt = vf::ledger().counter;
+      if (s.fault_tick) vf::ledger().disarm();
+      if (s.fault_tick) { Req rq; rq.id = 9990; rq.kind = "query"; rq.name = "usable.probe.test"; s.reqs[9990] = rq; s.order.push_back(9990); s.start(s.reqs[9990]); s.stuck = false; s.budget_exhausted = false; s.astronomic = false; s.drain_steps = 0; s.drain(); }
+      (void)was_armed; (void)fa; (void)cnt;
+    }
     s.destroy();
+    cur_sim() = nullptr;
     if (getenv("VERIF_TRACE")) dump_trace();
     RunResult r = finish();
-    if (r.v.ok && vf::ledger().live != live0) fail(r, "C01.leak", std::to_string(vf::ledger().live - live0) + " library allocations still live after ares_destroy");
+    if (r.v.ok && vf::ledger().live != live0) fail(r, prop == "C14" ? "C14.leak" : "C01.leak", std::to_string(vf::ledger().live - live0) + " library allocations still live after ares_destroy");
     W() = nullptr;
     return r;
   }
@@ -639,8 +673,37 @@ inline std::string whole_transport_twin(const std::string &text) {
   return o + "opt noempty=1\n";   // same outcome table (so the hash picks the same outcomes), but the zero-length datagram is not sent
 }
 
+// C14: the scenario is run once with a counting allocator (N allocations), then once per chosen index n with allocation n refused.
+//   "failat all" = every n in 1..N (exhaustive for this scenario); "failat a b c" = those (reduced modulo N, so any number is a valid choice)
+inline RunResult run_c14(const std::string &text) {
+  std::vector<uint64_t> picks; bool all = false; std::string body;
+  { std::istringstream in(text); std::string l; while (std::getline(in, l)) { if (l.rfind("failat", 0) == 0) { std::istringstream ls(l); std::string w; ls >> w; while (ls >> w) { if (w == "all") all = true; else picks.push_back(strtoull(w.c_str(), nullptr, 10)); } } else body += l + "\n"; } }
+  vf::Ledger &L = vf::ledger(); vf::Stats &st = vf::stats();
+  const char *tr = getenv("VERIF_TRACE"); std::string trv = tr ? tr : ""; if (tr) unsetenv("VERIF_TRACE");   // trace the faulted run only
+  L.arm(0); RunResult base; { Scenario sc; base = sc.run(body, "C14"); } uint64_t N = L.counter; L.disarm(); L.on_fire = nullptr;
+  if (tr) setenv("VERIF_TRACE", trv.c_str(), 1);
+  if (!base.v.ok) { base.v.detail = "(no allocation refused) " + base.v.detail; return base; }
+  base.counters["c14.baseline_allocations"] += N; base.counters["c14.scenarios"]++;
+  if (N == 0 || (!all && picks.empty())) return base;
+  std::vector<uint64_t> ns; if (all) { for (uint64_t n = 1; n <= N; n++) ns.push_back(n); base.counters["c14.scenarios_enumerated_exhaustively"]++; } else for (uint64_t k : picks) ns.push_back(1 + k % N);
+  std::sort(ns.begin(), ns.end()); ns.erase(std::unique(ns.begin(), ns.end()), ns.end());
+  RunResult out = base;
+  for (uint64_t n : ns) {
+    std::string sub = body + "failat " + std::to_string(n - 1) + "\n";   // (n-1) % N + 1 == n
+    st.about_to_run(sub); st.narrowed = sub;
+    L.arm(n); RunResult r; { Scenario sc; sc.baseline_enomem = base.enomem_reqs; r = sc.run(body, "C14"); } bool fired = L.fired; L.disarm(); L.on_fire = nullptr;
+    out.counters["c14.runs_with_one_refused_allocation"]++; if (!fired) out.counters["c14.index_not_reached"]++;
+    for (auto &kv : r.counters) if (kv.first.rfind("c14.", 0) == 0) out.counters[kv.first] += kv.second;
+    if (r.nontrivial) out.nontrivial = true;
+    if (!r.v.ok) { r.v.detail = "refusing allocation #" + std::to_string(n) + " of " + std::to_string(N) + ": " + r.v.detail; r.counters = out.counters; r.nontrivial = out.nontrivial; return r; }
+  }
+  st.narrowed.clear();
+  return out;
+}
+
 // Runs a case for a property.  C20 is metamorphic: the same scenario with whole transport must give the same outcomes.
 inline RunResult run_prop(const std::string &text, const std::string &prop) {
+  if (prop == "C14") return run_c14(text);
   if (prop != "C20") { Scenario sc; return sc.run(text, prop); }
   RunResult var; { Scenario sc; var = sc.run(text, prop); }
   if (!var.v.ok) return var;
